@@ -311,3 +311,27 @@ func TestTryLockCanBarge(t *testing.T) {
 	}, func(o *vx.Outcome) string { return log })
 	expect(t, got, "ok:BW", "ok:WB", "ok:Wb", "ok:bW")
 }
+
+func TestUnbufferedTwoReceiversBothCanWin(t *testing.T) {
+	// two tasks wait on one unbuffered channel; which of them gets the single value is a choice, and both
+	// alternatives must survive the state cache
+	var who string
+	got := outcomes(t, "two-receivers", vx.Options{}, func(env *vx.Env) {
+		ch := vx.MakeChan[int](0, "ch")
+		who = ""
+		won := vx.NewEvent("won")
+		for _, n := range []string{"r1", "r2"} {
+			n := n
+			env.GoBlocked(n, func() {
+				vx.Recv(ch, "")
+				who = n
+				won.Set()
+			})
+		}
+		vx.Yield()
+		vx.Yield()
+		vx.Send(ch, 1, "")
+		won.Wait()
+	}, func(o *vx.Outcome) string { return who })
+	expect(t, got, "ok:r1", "ok:r2")
+}
